@@ -23,6 +23,14 @@ def moonF : Handler := fun fn a =>
   | "moon_apsis" => some <| out (moon_perigee_apogee a[0]!.f a[1]!.s)
   | "moon_nodes" => some <| out (moon_passage_nodes a[0]!.f a[1]!.s)
   | "moon_decl" => some <| out (moon_maximum_declination a[0]!.f a[1]!.s)
+  | "moon_phase_j" => some <| out (moon_phase_jde a[0]!.f a[1]!.s)
+  | "moon_apsis_j" => some <| out (moon_perigee_apogee_jde a[0]!.f a[1]!.s)
+  | "moon_nodes_j" => some <| out (moon_passage_nodes_jde a[0]!.f a[1]!.s)
+  | "moon_decl_j" => some <| out (moon_maximum_declination_jde a[0]!.f a[1]!.s)
+  | "moon_fyear" => some <| out (fyear a[0]!.f)
+  | "moon_app_ecl_j" => some <| out (apparent_ecliptical_pos_jde a[0]!.f)
+  | "moon_app_equ_j" => some <| out (apparent_equatorial_pos_jde a[0]!.f)
+  | "moon_bright_limb_j" => some <| out (position_bright_limb_jde a[0]!.f)
   | "moon_epoch_of_jde" => some <| out (epoch_of_jde a[0]!.f)
   | "moon_reduce_deg" => some <| out (reduce_deg a[0]!.f)
   | "moon_to_positive" => some <| out (to_positive a[0]!.f)
